@@ -3,6 +3,7 @@ import math
 from fractions import Fraction as Fr
 
 import gen
+import vlib
 from gen import i1_line, e_scalar, e_single, e_array, e_ainto, e_into
 from vlib import lin_bracket
 
@@ -18,6 +19,8 @@ PARTIAL = ["rounding magnitude is proved under the standard model of fp arithmet
 ASSUMPTIONS = ["standard model of floating-point arithmetic for the rounding bound", "axis length < 2^64"]
 U = Fr(1, 2 ** 53)
 BOUND = 13 * U + 12 * U * U
+U32 = Fr(1, 2 ** 24)
+BOUND32 = 13 * U32 + 12 * U32 * U32
 
 
 def gen_case_q(rng, ext=False):
@@ -87,6 +90,55 @@ def gen_case_f(rng):
     return shape, defx, xs, flat, qs
 
 
+def gen_case_g(rng):
+    """f32 elements: every value is an f32 (held in a Python float)"""
+    r32 = vlib.f32_round
+    for _ in range(50):
+        n = rng.choice([2, 3, 4, 6, 10, 25])
+        trailing = gen.trailing_shape(rng, 2)
+        shape = [n] + trailing
+        defx = rng.random() < 0.25
+        kind = rng.choice(["unit", "uniform", "random", "geometric", "ulps", "big"])
+        if defx or kind == "unit":
+            xs = [float(i) for i in range(n)]
+        elif kind == "uniform":
+            a, h = r32(rng.uniform(-50, 50)), r32(rng.uniform(0.01, 9))
+            xs = [r32(a + i * h) for i in range(n)]
+        elif kind == "geometric":
+            a, st, r = r32(rng.uniform(-5, 5)), rng.uniform(0.01, 2), rng.choice([2.0, 1.5, 0.5, 3.0])
+            xs = [a]
+            for _ in range(n - 1):
+                xs.append(r32(xs[-1] + st)); st *= r
+        elif kind == "ulps":
+            xs = [r32(rng.uniform(-100, 100))]
+            for _ in range(n - 1):
+                v = xs[-1]
+                for _ in range(rng.choice([1, 1, 2, 3, 50])):
+                    v = vlib.next_up32(v)
+                xs.append(v)
+        elif kind == "big":
+            # magnitudes where f32 has no fractional part left (>= 2^24): consecutive representable values are >= 2 apart
+            b = rng.choice([2.0 ** 24, 2.0 ** 26, -2.0 ** 25, 3.0e9])
+            xs = [r32(b)]
+            for _ in range(n - 1):
+                v = xs[-1]
+                for _ in range(rng.choice([1, 2, 5, 40])):
+                    v = vlib.next_up32(v)
+                xs.append(v)
+        else:
+            xs = sorted({r32(rng.uniform(-300, 300)) for _ in range(3 * n)})[:n]
+        if len(xs) < n or any(not a < b for a, b in zip(xs, xs[1:])):
+            continue
+        flat = [r32(rng.uniform(-1, 1) * 10.0 ** rng.randint(-3, 6)) for _ in range(gen.shape_size(shape))]
+        qs = list(xs)
+        for a, b in zip(xs, xs[1:]):
+            qs += [vlib.next_up32(a), vlib.next_down32(b), r32(a + (b - a) * rng.random()), r32((a + b) / 2)]
+        qs = [q for q in qs if xs[0] <= q <= xs[-1]]
+        rng.shuffle(qs)
+        return shape, defx, xs, flat, [xs[0], xs[-1]] + qs[:8]
+    return None
+
+
 def normal_range(v):
     """finite, and not so small that the standard model (relative error u per operation) could fail"""
     a = abs(Fr(v))
@@ -144,6 +196,21 @@ def generate(rng, tier):
     for _ in range(nf):
         shape, defx, xs, flat, qs = gen_case_f(rng)
         cases.append(build_line(rng, "F", shape, defx, xs, flat, qs, False))
+    # f32 elements (model executed at IEEE binary32; held to the proved bound with u = 2^-24)
+    for _ in range(gen.N(tier, 120, 3000)):
+        g = gen_case_g(rng)
+        if g:
+            shape, defx, xs, flat, qs = g
+            cases.append(build_line(rng, "G", shape, defx, xs, flat, qs, False))
+    # i32 elements (same integer semantics as i64, narrower casts)
+    for _ in range(gen.N(tier, 40, 800)):
+        n = rng.choice([2, 3, 4, 6, 10])
+        shape = [n] + gen.trailing_shape(rng, 1)
+        xs = gen.axis_i(rng, n, rng.choice(["unit", "uniform", "random", "gappy", "small", "evenish"]))
+        flat = [rng.randint(-1000, 1000) for _ in range(gen.shape_size(shape))]
+        c = build_line(rng, "J", shape, False, xs, flat, list(gen.queries_i(rng, xs, 8)), False)
+        c["meta"]["int"] = True
+        cases.append(c)
     # i64 elements: the crate's integer semantics (truncating slope) are not the property's real-number statement, so these cases are
     # judged by the model correspondence only (model executed at Z64 = i64 arithmetic)
     for _ in range(gen.N(tier, 60, 1500)):
@@ -194,6 +261,7 @@ def oracle(case, res):
             return f"value #{k} must be the exact linear interpolant {exact[k]}, got {got[k]}"
         return None
     got = res.floats()
+    bound = BOUND32 if case["line"].startswith("G ") else BOUND
     L = gen.lanes_of(m["shape"])
     for k, (g, e) in enumerate(zip(got, exact)):
         qi, lane = divmod(k, L) if L else (0, 0)
@@ -201,6 +269,6 @@ def oracle(case, res):
         M = max(abs(rows[i][lane]), abs(rows[i + 1][lane]))
         if not math.isfinite(g):
             return f"value #{k} not finite: {g}"
-        if abs(Fr(g) - e) > BOUND * M + Fr(1, 2 ** 1000):
-            return f"value #{k}: |computed - exact| = {float(abs(Fr(g) - e)):.3e} exceeds the proved bound {float(BOUND * M):.3e}"
+        if abs(Fr(g) - e) > bound * M + Fr(1, 2 ** 1000):
+            return f"value #{k}: |computed - exact| = {float(abs(Fr(g) - e)):.3e} exceeds the proved bound {float(bound * M):.3e}"
     return None
